@@ -360,6 +360,11 @@ class Recorder:
 
 def _child(fn, arg, conn):
     try:
+        # own process group: whatever the case starts (pool workers, engine programs) can be removed with it
+        try:
+            os.setsid()
+        except OSError:
+            pass
         devnull = open(os.devnull, "w")
         sys.stdout = devnull
         res = fn(arg)
@@ -378,6 +383,15 @@ def run_many(fn, args, jobs=14, timeout=600):
     active = {}
     nxt = 0
     import time
+    import signal
+
+    def reap(p):
+        """remove what the case left behind (the child is the leader of its own process group)"""
+        try:
+            os.killpg(p.pid, signal.SIGKILL)
+        except (ProcessLookupError, PermissionError, OSError):
+            pass
+
     while nxt < len(args) or active:
         while nxt < len(args) and len(active) < jobs:
             pc, cc = ctx.Pipe(duplex=False)
@@ -394,6 +408,7 @@ def run_many(fn, args, jobs=14, timeout=600):
                 except EOFError:
                     results[i] = ("err", "child died without result")
                 p.join()
+                reap(p)
                 done.append(i)
             elif not p.is_alive():
                 if pc.poll(0.05):
@@ -404,8 +419,10 @@ def run_many(fn, args, jobs=14, timeout=600):
                 else:
                     results[i] = ("err", f"child exited rc={p.exitcode} without result")
                 p.join()
+                reap(p)
                 done.append(i)
             elif time.time() - t0 > timeout:
+                reap(p)
                 p.kill()
                 p.join()
                 results[i] = ("err", "timeout (possible hang)")
